@@ -85,6 +85,51 @@ def run(R, tier, seed, driver_ok):
                     meta.append(('get_metric', m_xy, scale, case))
                     lines.append(f'score {k} {d} {Lb} {bits(x[i])} {bits(yv[i])}')
                     meta.append(('pair_score', sxy[i], scale, case))
+    # ---- one call on ALL ordered pairs of N points (thousands of pairs, N² not a round number): the matrix of reported
+    #      distances must itself be a pseudo-metric and must not depend on how many pairs are asked for at once
+    sel = pop if tier == 'thorough' else [pop[i] for i in rng.choice(len(pop), size=min(6, len(pop)), replace=False)]
+    for label, est, X, y in sel:
+        L = np.asarray(est.components_)
+        N = int(rng.randint(65, 111))
+        lo, hi = X.min(0), X.max(0)
+        Q = lo + (hi - lo) * rng.rand(N, X.shape[1])
+        Q[1] = Q[0]                                            # a repeated point
+        ii, jj = np.meshgrid(np.arange(N), np.arange(N), indexing='ij')
+        allp = np.stack([Q[ii.ravel()], Q[jj.ravel()]], axis=1)
+        D = np.asarray(est.pair_distance(allp)).reshape(N, N)
+        S = np.asarray(est.pair_score(allp)).reshape(N, N)
+        case = {'est': label, 'stream': 'all-pairs-batch', 'L': L, 'points': Q}
+        R.case(('c01-batch', label, L.tobytes().hex()[:64], Q.tobytes().hex()[:64]), True,
+               sample={'est': label, 'stream': 'all-pairs-batch', 'n_points': N, 'n_pairs': N * N}, branch='all-pairs-batch')
+        if not np.all(np.isfinite(D)):
+            R.violation('nonfinite', f'{label}: non-finite distance in a batch of {N * N} pairs', case); continue
+        if D.min() < 0 or np.any(np.diag(D) != 0) or D[0, 1] != 0:
+            R.violation('batch/self-or-negative', f'{label}: batch of {N * N} pairs: negative distance or d(x,x) ≠ 0', case)
+        # (rows of one large matrix product may be rounded by different BLAS kernels: symmetry up to rounding here, bitwise
+        #  symmetry is demanded in the small-batch streams above)
+        pd_ = np.sqrt(((Q[:, None] - Q[None]) ** 2).sum(-1))
+        if np.any(np.abs(D - D.T) > REL * np.linalg.norm(L) * pd_ + 1e-300):
+            i_, j_ = np.argwhere(np.abs(D - D.T) > REL * np.linalg.norm(L) * pd_ + 1e-300)[0]
+            R.violation('batch/asymmetric', f'{label}: batch of {N * N} pairs: d(x_{i_},x_{j_})={D[i_, j_]!r} but d(x_{j_},x_{i_})={D[j_, i_]!r}', case)
+        if not np.array_equal(S, -D):
+            R.violation('batch/score-not-neg', f'{label}: pair_score ≠ −pair_distance in a batch of {N * N} pairs', case)
+        normL = np.linalg.norm(L)
+        slack = 64 * 2.3e-16 * (D.max() + normL * np.abs(Q).sum(1).max() * 3)
+        for m_ in rng.choice(N, size=8, replace=False):
+            viol = D - (D[:, [m_]] + D[[m_], :]) > slack
+            if viol.any():
+                i_, j_ = np.argwhere(viol)[0]
+                R.violation('batch/triangle', f'{label}: batch of {N * N} pairs: d(x_{i_},x_{j_})={D[i_, j_]!r} > d(x_{i_},x_{m_})+d(x_{m_},x_{j_})={D[i_, m_] + D[m_, j_]!r}', case); break
+        metric = est.get_metric()
+        for t_ in rng.choice(N * N, size=24, replace=False).tolist() + [N * N - 1, N * N - 2]:
+            i_, j_ = divmod(int(t_), N)
+            one = float(est.pair_distance(allp[t_:t_ + 1])[0])
+            # (the matrix product behind a batch may round differently in the last bit than for a single pair)
+            if abs(one - D[i_, j_]) > REL * normL * np.linalg.norm(Q[i_] - Q[j_]) + 1e-300:
+                R.violation('batch/size-dependent', f'{label}: pair {t_} of a batch of {N * N} has distance {D[i_, j_]!r}, asked alone {one!r}', case); break
+            mv = float(metric(Q[i_], Q[j_]))
+            if abs(mv - D[i_, j_]) > REL * normL * np.linalg.norm(Q[i_] - Q[j_]) + 1e-300:
+                R.violation('metric-vs-pair', f'{label}: get_metric {mv!r} vs pair_distance {D[i_, j_]!r} (batch of {N * N})', case); break
     if driver_ok and lines:
         outs = lean_run(lines)
         worst = 0.0
